@@ -1,4 +1,5 @@
 mod debug_tree;
+mod include;
 mod decode;
 mod itemlist;
 mod modelop;
@@ -19,6 +20,7 @@ fn main() {
         "itemlist-record" => itemlist::record(&args),
         "decode-replay" => decode::replay(&args),
         "decode-fuzz" => decode::fuzz(&args),
+        "include-op" => include::run(&args),
         "model-op" => modelop::run(&args),
         "placement-replay" => placement::replay(&args),
         "placement-record" => placement::record(&args),
